@@ -43,6 +43,15 @@ CLAIMED = {
             "deterministic simulation with virtual clock, seeded timeline sampling vs. token model"),
 }
 
+# later extensions of the checks (appended to the level texts above)
+EXTRA = {
+    "C06": " Also: a public caller that re-keys to a BEP42 id in the middle of a train of bootstrapped() calls.",
+    "C07": " Also: a late-answer family (relays with dead contacts keep the lookup alive while late peers answer after 0.52-1.4 s; late answers that certainly count are decided from the trace, ambiguous ones suspend the verdicts).",
+    "C08": " Also: token-bearing extra nodes for mutable puts (majority over all store requests) and a put started from the cache while a lookup of the same target comes back empty-handed (rule: no query error while a store request is outstanding that is then acknowledged in time).",
+    "C13": " Also: promotion runs (adaptive nodes that switched to server mode at their first 15-minute refresh are held by another table and queried by lookups).",
+    "C14": " Also: busy-node runs (a lookup every 200-450 ms for a virtual hour with a peer dead for good), partitions, suspensions, slow links.",
+}
+
 NOT_APPLICABLE = {
     "C10": "Pure function of the message value (encode/decode round trip): no schedule, clock, fault or second party; deciding it is input enumeration, outside deterministic simulation (DESIGN §4 C10).",
     "C19": "Pure functions of ids, strings and IPs (XOR metric, hex parsing, BEP42): nothing to schedule, delay, crash or interleave (DESIGN §4 C19).",
@@ -60,7 +69,7 @@ for pid, (ref, text, tech) in sorted(CLAIMED.items()):
         "evidence_file": f"/verif/evidence/{pid}.json",
         "replay_cmd_template": "/verif/bin/check replay {path}",
         "engine": "mlsim",
-        "level_claimed": {"category": "exploration", "text": text, "design_ref": ref},
+        "level_claimed": {"category": "exploration", "text": text + EXTRA.get(pid, ""), "design_ref": ref},
         "level_note": "Trusted base: the simulator (/verif/sim), the cfg(mainline_verif) seams in /repo/src/verif.rs, corosensei, ed25519-dalek/sha1_smol for the oracle's re-verification. Real code under test: everything in /repo/src except the OS socket, clocks, entropy, hash-map hasher and thread spawn.",
         "technique": tech,
     })
